@@ -171,7 +171,28 @@ def translate(src: Path) -> dict:
                              for h in handlers_for_cancel(ind))
     opa = find_func(cls.body, 'on_peer_accepted')
     pierce_checks_done = any(isinstance(c, ast.Call) and ast.unparse(c) == 'connection_future.done()' for c in ast.walk(opa))
+    # DataConnection._send: how is the connection closed when the write fails?  directly (the failing segment reports
+    # CLOSING itself) or from a shielded task of its own (reported one scheduling step later; survives the sender's cancellation)
+    dsend = find_func(dc.body, '_send')
+    send_handlers = [h for h in ast.walk(dsend) if isinstance(h, ast.ExceptHandler)]
+    if len(send_handlers) != 2:
+        raise Refuse('_send: expected the TimeoutError and the Exception handler')
+    kinds = set()
+    for h in send_handlers:
+        cs = [c.func.attr for c in ast.walk(ast.Module(body=h.body, type_ignores=[]))
+              if isinstance(c, ast.Call) and isinstance(c.func, ast.Attribute) and c.func.attr in ('disconnect', '_disconnect_detached')]
+        if len(cs) != 1 or not any(isinstance(x, ast.Raise) for x in h.body):
+            raise Refuse('_send: a failure handler must close the connection once and raise')
+        kinds.add(cs[0])
+    if len(kinds) != 1:
+        raise Refuse('_send: the two failure handlers close the connection differently')
+    send_detached = kinds == {'_disconnect_detached'}
+    if send_detached:
+        dd = ast.unparse(find_func(dc.body, '_disconnect_detached'))
+        if 'asyncio.shield' not in dd or 'self.disconnect(reason)' not in dd or 'ensure_future' not in dd:
+            raise Refuse('_disconnect_detached: expected await asyncio.shield(asyncio.ensure_future(self.disconnect(reason)))')
     flags = [
+        ('SEND_FAILURE_DISCONNECT_DETACHED', send_detached, 'DataConnection._send closes the connection from a shielded task of its own when the write fails'),
         ('INDIRECT_CLOSES_ARRIVED_ON_CANCEL', ind_closes_arrived, '_make_indirect_connection cancelled after the pierce connection arrived disconnects that connection'),
         ('PIERCE_IGNORES_DONE_WAITER', pierce_checks_done, 'on_peer_accepted treats a PeerPierceFirewall for an already cancelled waiter as an unknown ticket'),
         ('CONNECT_CLOSES_ON_CANCEL', connect_closes, 'DataConnection.connect: except CancelledError -> disconnect(); raise'),
